@@ -62,6 +62,9 @@ def contract_violation(rc, out, err):
         if out.strip():
             return "exit 1 with output on standard output"
         if b"[Error]" not in err:
+            # recorded finding D19: an index left ill scoped by a re-homed hole reaches the normaliser's context lookup
+            if re.search(rb"panicked at src/normalizer\.rs:\d+:\d+:\s*\n?(attempt to subtract with overflow|index out of bounds)", err):
+                return "exit 1 without an [Error] diagnostic: panic in the normaliser's context lookup sig=D19-local-hole-rehomed-by-shift"
             return "exit 1 without an [Error] diagnostic"
         return None
     if rc == "timeout":
@@ -117,6 +120,8 @@ def cli_contract(chk, pid, tier, seed):
         inputs.append(b"(" * n + b"1" + b")" * n)
         inputs.append(b"(" * n + b"1")
         inputs.append(b"1" + b" + 1" * (2 * n))
+    # recorded finding D19 (panic in normalize_weak_head: context index out of range)
+    inputs.append(b"(f : type) => (z : (a : type) -> _) => ((w : (a : type) -> f) => w) z + z int")
     inputs = list(dict.fromkeys(inputs))
     jobs = []
     for i, b in enumerate(inputs):
@@ -300,6 +305,21 @@ def families(n):
     f.append(("let-in-parens", "(x = " * (n // 3) + "1" + "; x)" * (n // 3)))
     f.append(("unclosed-lets", "x = ( " * (n // 3)))
     f.append(("colon-chain", "x : " * (n // 2)))
+    # chains nested inside operands of chains of the same kind (the re-association passes recurse into operands):
+    # a parenthesised chain as a middle / last / first operand, n // 8 levels deep
+    d = n // 8
+    def nest(open_, close_, leaf):
+        s = leaf
+        for _ in range(d):
+            s = open_ + s + close_
+        return s
+    f.append(("nested-application-middle", nest("f (", ") 2", "f 1 2")))
+    f.append(("nested-application-last", nest("f 2 (", ")", "f 1 2")))
+    f.append(("nested-application-head", nest("(", ") 2 3", "f 1 2")))
+    f.append(("nested-difference-middle", nest("1 - (", ") - 2", "1 - 2 - 3")))
+    f.append(("nested-difference-last", nest("1 - 2 - (", ")", "1 - 2 - 3")))
+    f.append(("nested-quotient-middle", nest("1 * (", ") / 2", "1 / 2 * 3")))
+    f.append(("nested-mixed-middle", nest("f (1 - (2 * (", ")) - 3) 4", "f 1 2")))
     return f
 
 
@@ -316,7 +336,7 @@ def parse_scaling(chk, pid, tier, seed):
     worst_ratio = {}
     for (name, n), l in zip(meta, res):
         r = l.split("\t", 1)[1]
-        m = re.match(r"\(timed (\w+) (\d+) (\d+) \(hooks (\d+) (\d+) (\d+) (\d+)\)\)", r)
+        m = re.match(r"\(timed (\w+) (\d+) (\d+) \(hooks (\d+) (\d+) (\d+) (\d+)(?: \d+)*\)\)", r)
         if not m:
             if "(timeout)" in r or "(abort)" in r:
                 fails.append({"kind": "property", "stream": "py:parse_scaling", "case": l.split("\t")[0][:300], "result": r,
